@@ -246,10 +246,8 @@ func (n *Normer) CondOf(v ssa.Value) *Cond {
 					loopCarried = true
 				}
 			}
-			from := n.curFrom
-			if from != nil && (!from.Dominates(blk) || from == blk) {
-				from = nil
-			}
+			// the edges are distinguished by what happens after the block's immediate dominator
+			from := blk.Idom()
 			if !loopCarried {
 				n.phiDepth++
 				total := cFalse
